@@ -12,6 +12,7 @@ TIMINGS = {
     "D": annenv.tcfg(collect=1, initMin=1, initMax=2, reps=0, cyclic=0, rrMin=1, rrMax=1),
     "E": annenv.tcfg(collect=0, initMin=1, initMax=3, reps=3, base=2, cyclic=16, rrMin=0, rrMax=2, annTTL=48),
     "F": annenv.tcfg(collect=1, initMin=0, initMax=2, reps=4, base=2, cyclic=5, rrMin=0, rrMax=0, annTTL=16777215),
+    "B0": annenv.tcfg(collect=1, cyclic=4),       # = C06_B of SDConfigs.tla
 }
 
 
@@ -160,3 +161,20 @@ def conform_by_variant(ctx, traces, limit):
         acc += a
         total += t
     return acc, total
+
+
+def spec_to_code_ann(ctx, monitor, cfg_expr, inputs_expr, variant, insts, ann0, n, depth=90, max_ev=6):
+    """Mode 2 for the announcer properties: behaviours of SD.tla under a configuration of SDConfigs.tla, replayed
+    into the real announcer at the same loop positions and with the same random delays"""
+    from .common import spec_to_code
+    tc = TIMINGS[variant]
+    cfg = annenv.mon_cfg(tc, insts, ann0)
+    cfg["dsts"] = ["mc", "a1", "a2", "a3"]
+    consts = {"Inputs": inputs_expr, "Match": "<<>>", "Cfg": cfg_expr, "Sw": "AllOff", "MaxEv": max_ev, "MaxIdle": 3, "MaxPerPoll": 2}
+
+    class Replay:
+        hist = None
+
+    def replay(sched, rands):        # the random delays drawn by the specification are prescribed to the code
+        return annenv.run_schedule(sched, tc, insts, ann0=ann0, rand=list(rands) + [0] * 10)
+    return spec_to_code(ctx, consts, n, depth, replay, monitor, cfg)
